@@ -75,7 +75,7 @@ def theorem_status(prop, build_res):
                     out = 'lemma %s in %s no longer checks | ' % (lem, pf) + out
                     break
         broken.append({'theorem': failing, 'why': ('a dependency does not compile: ' if dep_fail else 'does not check: ') + out.strip()[-600:]})
-        discharged = sum(1 for name, ln in thms if failing and ln < dict(thms)[failing]) if failing else 0
+        discharged = sum(1 for name, ln in thms if failing and ln < dict(thms).get(failing, 0)) if failing else 0
     return len(thms), discharged, details, broken
 
 def load_known(prop):
